@@ -28,3 +28,14 @@ func (s *channelState) verifDirty() int64 {
 	}
 	return m
 }
+
+// verifLive returns the number of listed connections which are not closed.
+func (c *clientConns) verifLive() int64 {
+	var n int64
+	for _, conn := range c.conns {
+		if !conn.Closed().IsSet() {
+			n++
+		}
+	}
+	return n
+}
